@@ -48,3 +48,41 @@ PROPS["C18"] = dict(
     assumptions=["std integer methods behave as documented (modelled in Model/StdInt.lean, validated differentially)"],
     gen_items=["amount.Amount", "amount.SignedAmount"],
 )
+
+_CODEC_NOTE = ("Trusted: Lean kernel; the hand-written codec model (Model/VarInt, Tx, Block, Len) is tied to encode.rs / transaction.rs / "
+               "ringct.rs / block.rs by differential testing (accept/reject, bytes consumed, re-encoded bytes, reported length on structured, "
+               "mutated, truncated, tag-swept and declared-length inputs), not by proof; CAP is regenerated from source; size_of values are "
+               "constants of the model (Tx.lean `sizes`) checked against std::mem::size_of by the declared-length cases.")
+
+PROPS["C01"] = dict(
+    level="proof",
+    technique="Lean 4 theorems: `Sound enc dec` for every consensus decoder by combinator lemmas + case analysis of the Transaction/RingCT dispatch (decoder and encoder are separately modelled); differential correspondence on structured + malformed byte strings",
+    level_text="C01_sound_* prove for every byte string b, every version, all seven RingCT types and every count that `dec b = some (x, rest)` implies `b = enc x ++ rest`, for VarInt, fixed-width records, capped vectors, TxIn, TxOut targets, prefix, ecdh, Bulletproof(+), MLSAG/CLSAG, RctSigBase(i,o), RctSigPrunable(type,i,o,m), Transaction, BlockHeader and Block; injectivity and 'identifiers commit to the received bytes' are corollaries. The model's decoders/encoders mirror the Rust ones and agree with them on ~58k (quick) structured, mutated, truncated and tag-swept inputs; the real code is additionally checked directly (serialize(parse b) == b[..n]).",
+    level_note=_CODEC_NOTE,
+    design_ref="DESIGN.md §6 C01",
+    rule="40% valid encodings from the type-directed generator, 60% malformed stream (9 mutation kinds, 256-value sweeps at leading byte positions, truncation at every position, declared lengths around the cap).",
+    assumptions=["model/Rust correspondence of the codec is differential", "String and bool codecs are not reachable from Block/Transaction and are not modelled"],
+    gen_items=["CAP"],
+)
+
+PROPS["C02"] = dict(
+    level="proof",
+    technique="Lean 4 theorems: `Complete wf enc dec` on explicit decidable well-formedness predicates, separately modelled length accounting proved equal to bytes written, strictness lemmas; round-trip / length / strictness oracles on generated values",
+    level_text="C02_complete_* prove `dec (enc x ++ r) = some (x, r)` for every well-formed x (wfTx/wfBlock: implicit vectors have the implied lengths, numbers are u64, keys 32 bytes, explicit vectors within the cap, one-byte BulletproofPlus count < 256) and every continuation r; C02_len_* prove that the byte count each encoder reports (a separately written fold mirroring `len += ...`) equals the bytes written for every value; C02_strict / C02_strict_iff_partial / C02_partial_count give the strict/partial clauses. The real code is checked on generated values of all shapes (round trip, reported length, strict rejection of suffixes) and against the model.",
+    level_note=_CODEC_NOTE + " Known finding: BulletproofPlus counts > 255 do not round-trip (recorded, DESIGN.md §7 item 4).",
+    design_ref="DESIGN.md §6 C02, Appendix B",
+    rule="type-directed values: both versions, all 7 RingCT types, rings 1..40 (a few with thousands of members), 0..18 outputs (a few with thousands), long extras, blocks with 0..thousands of hashes; primitives at every varint width boundary.",
+    assumptions=["WF includes the decoder's allocation cap (C04 requires it)", "Padding sub-fields are C16's subject (not prefix-free by design)"],
+    gen_items=["CAP"],
+)
+
+PROPS["C06"] = dict(
+    level="proof",
+    technique="Lean 4 loop-invariant proof: the imperative in-place array tree hash (model of tree_hash_cnt/tree_hash with every assert and index checked) equals the recursive CryptoNote definition for every hash function and every n <= 2^28; blob/id formulas by unfolding; differential check for every n in an initial segment and around powers of two",
+    level_text="C06_tree_eq_spec proves, for every H, root and list of extra hashes with count <= 2^28, that the model of the Rust loops (doubling loop with both asserts, first in-place pairing loop, assert_eq, halving loops, final combine; none = panic) returns exactly the recursive CryptoNote tree hash; C06_cnt characterises tree_hash_cnt; C06_blob / C06_id / C06_exception give the PoW blob, the id and the block-202612 substitution. The model instantiated with the reference Keccak reproduces the library's tree_hash for every n <= 300 (1100 thorough) and 2^k-2..2^k+2, and tx_root / hashable blob / id of generated blocks and of block 202612.",
+    level_note="Trusted: Lean kernel; model/Rust correspondence of the loops is differential; Keccak-256 itself is tiny-keccak (C17); the header bytes and miner-tx hash fed to the Lean side come from the library (the Block codec model is C01/C02's, the tx id is C05's).",
+    design_ref="DESIGN.md §6 C06",
+    rule="every leaf count n in 1..=300 (quick) / 1..=1100 (thorough), 2^k-2..2^k+2 for k <= 12 / 16, generated blocks with hash counts around powers of two, block 202612.",
+    assumptions=["count <= 2^28 (the code's own assert; guaranteed for parsed blocks by the allocation cap)"],
+    gen_items=[],
+)
